@@ -613,6 +613,8 @@ struct RanDoc {
     /// (index by title, kind) in the order of the report; None = no JSON
     results: Option<Vec<(Option<usize>, String)>>,
     stderr: String,
+    /// the counters scrut logs at the end of the run (`success= skipped= failed=`), all documents of the run
+    counters: Option<(usize, usize, usize)>,
 }
 
 /// `scrut test -r json <doc>` in `dir` (private TMPDIR `dir/tmp`)
@@ -630,6 +632,8 @@ fn run_binary_after(dir: &Path, doc_path: &Path, cram_first: bool) -> RanDoc {
         pre.push(p);
     }
     let out = std::process::Command::new(scrut_bin())
+        .arg("--log-level")
+        .arg("info")
         .arg("test")
         .arg("-r")
         .arg("json")
@@ -673,7 +677,12 @@ fn run_binary_after(dir: &Path, doc_path: &Path, cram_first: bool) -> RanDoc {
             format!("{} exit={code}", if shown.is_empty() { "-".to_string() } else { shown.join(",") })
         }
     };
-    RanDoc { line, code, results, stderr }
+    // `INFO scrut::commands::test: success=0 skipped=2 failed=0 detached=0`
+    let counters = stderr.lines().rev().find(|l| l.contains(" success=") && l.contains(" skipped=")).and_then(|l| {
+        let num = |key: &str| l.split_whitespace().find_map(|w| w.strip_prefix(key)).and_then(|v| v.parse::<usize>().ok());
+        Some((num("success=")?, num("skipped=")?, num("failed=")?))
+    });
+    RanDoc { line, code, results, stderr, counters }
 }
 
 pub(crate) fn runs_field(tests: &[(Vec<u8>, Vec<u8>, i32)]) -> String {
@@ -735,6 +744,14 @@ fn case(prop: &str, seed: u64, idx: u64, root: &Path, name: String, verbose: boo
             let want = if failing { 50 } else { 0 };
             if ran.code != want {
                 fails.push(("C20:testdoc-exit-status".into(), describe(&format!("exit status {}, the reported verdicts ask for {want}", ran.code))));
+            }
+            // the counters scrut logs add up to the reported results (the document in front, if any, adds one success)
+            if let Some((ok, skipped, failed)) = ran.counters {
+                let pre = if idx % 3 == 1 { 1 } else { 0 };
+                let want = (rs.iter().filter(|(_, k)| k == "success").count() + pre, rs.iter().filter(|(_, k)| k == "skipped").count(), rs.iter().filter(|(_, k)| k != "success" && k != "skipped").count());
+                if (ok, skipped, failed) != want {
+                    fails.push(("C20:testdoc-counters".into(), describe(&format!("logged success={ok} skipped={skipped} failed={failed}, the reported results are success={} skipped={} failed={}", want.0, want.1, want.2))));
+                }
             }
             // one result per test case, in document order
             let idxs: Vec<Option<usize>> = rs.iter().map(|(i, _)| *i).collect();
